@@ -327,7 +327,18 @@ fn case(cx: &mut CaseCtx, input: Input) -> CaseResult {
     };
     let tabs = pick(&mut u, 3) == 0;
     let crlf = pick(&mut u, 4) == 0;
-    const NAMES: [&str; 7] = ["a.slice", "with space.slice", "quo\"te.slice", "ünï中.slice", "sub dir/b.slice", "per%cent.slice", "back\\slash.slice"];
+    // (two of the paths end in another one: `a.slice` / `sub dir/a.slice`, `sub dir/b.slice` / `up/sub dir/b.slice`)
+    const NAMES: [&str; 9] = [
+        "a.slice",
+        "sub dir/a.slice",
+        "with space.slice",
+        "quo\"te.slice",
+        "ünï中.slice",
+        "up/sub dir/b.slice",
+        "sub dir/b.slice",
+        "per%cent.slice",
+        "back\\slash.slice",
+    ];
     let nfiles = 1 + pick(&mut u, 3);
     let cross_file_note = nfiles >= 2 && matches!(bundle, 0 | 1) && pick(&mut u, 3) == 0;
     cx.label_if(cross_file_note, "note-in-another-file");
